@@ -165,6 +165,7 @@ func SpecErrorValued(reply interface{}) bool { return false }
 //@ func Batch.doBatch
 //@   arith int
 //@   properties C19
+//@   replay cluster_doBatch
 //@   opaque SpecRedirectClass
 //@   ghost var bSent mathint = 0
 //@   ghost var bRecv mathint = 0
